@@ -39,8 +39,11 @@ def _worker(case):
         def __init__(self):
             super().__init__(name='capture')
             self.last = None
+            self.start = None      # coefficients the last iteration started from (its constraint matrix is built from them)
+            self.cur = None
 
         def on_loop_end(self, W, mask, E, Q, R, U, d, Vt, WB, coef_new, diff):
+            self.start, self.cur = self.cur, np.asarray(coef_new, dtype=float).copy()
             self.last = dict(Wd=np.asarray(W.diagonal()).copy(), mask=np.asarray(mask).copy(), E=np.asarray(E).copy(),
                              Q=np.asarray(Q).copy(), R=np.asarray(R).copy(), U=np.asarray(U).copy(), d=np.asarray(d).copy(),
                              Vt=np.asarray(Vt).copy(), WB=np.asarray(WB.todense()) if hasattr(WB, 'todense') else np.asarray(WB).copy(),
@@ -101,7 +104,15 @@ def _worker(case):
     con = {}
     con['QtQ'] = float(np.abs(L['Q'].T @ L['Q'] - np.eye(L['Q'].shape[1])).max())
     con['QR'] = float(np.abs(L['Q'] @ L['R'] - L['WB']).max() / (np.abs(L['WB']).max() + 1e-300))
-    con['EtE'] = float(np.abs(L['E'].T @ L['E'] - A).max() / (np.abs(A).max() + 1e-300))
+    # E of the last iteration factors S + P + C(beta at the start of that iteration): the violation mask of the soft
+    # constraints can differ from the one at the final coef_ where a constrained difference is ~ 0 (ties)
+    A_E = A
+    if gam.terms.hasconstraint:
+        if cap.start is None:
+            A_E = None
+        else:
+            A_E = P + np.sqrt(EPS) * np.eye(m) + np.asarray(gam.terms.build_constraints(cap.start, gam._constraint_lam, gam._constraint_l2).todense(), dtype=float)
+    con['EtE'] = 0.0 if A_E is None else float(np.abs(L['E'].T @ L['E'] - A_E).max() / (np.abs(A_E).max() + 1e-300))
     RE = np.vstack([L['R'], L['E']])
     con['SVD'] = float(np.abs(L['U'][:, :m] @ np.diag(L['d']) @ L['Vt'] - RE).max() / (np.abs(RE).max() + 1e-300))
     con['UtU'] = float(np.abs(L['U'].T @ L['U'] - np.eye(L['U'].shape[0])).max())
@@ -111,38 +122,64 @@ def _worker(case):
     res['k_rows'] = int(k)
 
     # ---- independent oracle: gradient of the penalised criterion at coef_
-    eta = B @ coef
-    mu = fitgen.np_mu(link, levels, eta)
-    g = fitgen.np_grad(link, levels, mu)
-    V = fitgen.np_V(dist, levels, mu)
-    asym = np.ones(n) if tau is None else np.where(y > mu, tau, 1 - tau)
-    wk = wv * keep * asym
-    with np.errstate(all='ignore'):
-        part1 = B.T @ np.where(keep, wk * (y - mu) / (V * g), 0.0)
-        part2 = A @ coef
-        grad = -2 * part1 + 2 * part2
-        scale = 2 * (np.abs(B).T @ np.abs(wk * (y - mu) / (V * g))) + 2 * np.abs(A) @ np.abs(coef) + 1e-300
-        # size of the normal-equation right-hand side B'W^2 z (z = eta + (y - mu) g', W^2 = w / (V g'^2)): the
-        # natural scale of the score equation (the gradient is the difference of two terms of that size)
-        z = eta + (y - mu) * g
-        rhs = B.T @ np.where(keep, wk / (V * g * g) * z, 0.0)
-    res['grad_rel'] = float(np.linalg.norm(grad) / (2 * np.linalg.norm(rhs) + 1e-300))
-    with np.errstate(all='ignore'):
-        W2 = np.where(keep, wk / (V * g * g), 0.0)
-        N = B.T @ (W2[:, None] * B) + A
-        if not (np.isfinite(N).all() and np.isfinite(grad).all()):
-            res['status'] = 'nonfinite-oracle'
-            return res
-        ev = np.linalg.eigvalsh((N + N.T) / 2)
-        res['cond'] = float(ev.max() / max(ev.min(), 1e-300))
-        res['be_norm'] = float(np.linalg.norm(grad) / (2 * (np.linalg.norm(N, 2) * np.linalg.norm(coef) + np.linalg.norm(rhs)) + 1e-300))
-        res['be_comp'] = float(np.max(np.abs(grad) / (2 * (np.abs(N) @ np.abs(coef) + np.abs(rhs)) + 1e-300)))
-        try:
-            delta = np.linalg.solve(N, grad / 2)
-            res['newton_lp'] = float(np.linalg.norm(B @ delta) / (np.linalg.norm(eta) + 1e-300))
-            res['newton_energy'] = float(np.sqrt(abs(delta @ N @ delta) / (abs(coef @ N @ coef) + 1e-300)))
-        except np.linalg.LinAlgError:
-            res['newton_lp'] = res['newton_energy'] = float('nan')
+    # (second pass: when coef_ is zero to working precision — no kept row of the model matrix carries information, e.g.
+    # a by-variable that is 0 on every row, so the optimum is exactly 0 and coef_ is rounding noise of the solve — the
+    # fit is judged as the claim "beta = 0": a backward error is meaningless for a zero solution of a zero right-hand side)
+    coef_fit = coef
+    for attempt in (0, 1):
+        eta = B @ coef
+        mu = fitgen.np_mu(link, levels, eta)
+        g = fitgen.np_grad(link, levels, mu)
+        V = fitgen.np_V(dist, levels, mu)
+        asym = np.ones(n) if tau is None else np.where(y > mu, tau, 1 - tau)
+        wk = wv * keep * asym
+        with np.errstate(all='ignore'):
+            part1 = B.T @ np.where(keep, wk * (y - mu) / (V * g), 0.0)
+            part2 = A @ coef
+            grad = -2 * part1 + 2 * part2
+            scale = 2 * (np.abs(B).T @ np.abs(wk * (y - mu) / (V * g))) + 2 * np.abs(A) @ np.abs(coef) + 1e-300
+            # size of the normal-equation right-hand side B'W^2 z (z = eta + (y - mu) g', W^2 = w / (V g'^2)): the
+            # natural scale of the score equation (the gradient is the difference of two terms of that size)
+            z = eta + (y - mu) * g
+            rhs = B.T @ np.where(keep, wk / (V * g * g) * z, 0.0)
+        res['grad_rel'] = float(np.linalg.norm(grad) / (2 * np.linalg.norm(rhs) + 1e-300))
+        # natural scale of the linear predictor: the larger of |eta| and the working response |z| on the rows in use (for a
+        # fit whose optimum is eta ~ 0 — two nearly identical rows with opposite responses — |eta| alone is rounding noise)
+        with np.errstate(all='ignore'):
+            # (non-identity links: the linear predictor is dimensionless and an absolute change of 1e-6 per row is a
+            # relative change of 1e-6 of the mean: |eta| = |z| = 0 (y = mu at eta = 0) is an exact, not a tiny, scale)
+            lp_floor = 0.0 if link == 'identity' else float(np.sqrt(max(int(np.sum(keep)), 1)))
+            res['lp_scale'] = float(max(np.linalg.norm(eta), np.linalg.norm(np.where(keep, z, 0.0)), lp_floor) + 1e-300)
+            res['rhs_norm'] = float(np.linalg.norm(rhs))
+            res['rhs_abs_norm'] = float(np.linalg.norm(np.abs(B).T @ np.where(keep, np.abs(wk / (V * g * g) * z), 0.0)))
+        with np.errstate(all='ignore'):
+            W2 = np.where(keep, wk / (V * g * g), 0.0)
+            N = B.T @ (W2[:, None] * B) + A
+            if not (np.isfinite(N).all() and np.isfinite(grad).all()):
+                res['status'] = 'nonfinite-oracle'
+                return res
+            ev = np.linalg.eigvalsh((N + N.T) / 2)
+            res['cond'] = float(ev.max() / max(ev.min(), 1e-300))
+            # right-hand side measured without cancellation (|B|'W^2|z|): two identical rows with opposite responses have
+            # B'W^2 z = 0 and optimum beta = 0 exactly, and a backward error relative to |rhs| + |N||beta| would be noise / noise
+            res['be_norm'] = float(np.linalg.norm(grad) / (2 * (np.linalg.norm(N, 2) * np.linalg.norm(coef) + res['rhs_abs_norm']) + 1e-300))
+            res['be_comp'] = float(np.max(np.abs(grad) / (2 * (np.abs(N) @ np.abs(coef) + np.abs(rhs)) + 1e-300)))
+            try:
+                delta = np.linalg.solve(N, grad / 2)
+                res['newton_lp'] = float(np.linalg.norm(B @ delta) / res['lp_scale'])
+                res['newton_energy'] = float(np.sqrt(abs(delta @ N @ delta) / (abs(coef @ N @ coef) + 1e-300)))
+            except np.linalg.LinAlgError:
+                res['newton_lp'] = res['newton_energy'] = float('nan')
+
+        if attempt == 0:
+            with np.errstate(all='ignore'):
+                zeroish = (np.linalg.norm(eta) <= 1e-9 * res['lp_scale']
+                           and np.linalg.norm(coef) <= max(1e-8, 10 * EPS * res['cond']) * res['lp_scale'])
+            if not zeroish:
+                break
+            res['zero_solution'] = True
+            coef = np.zeros_like(coef)
+    res['coef'] = coef_fit
     # central differences of the criterion along 3 random directions (validates the analytic gradient itself)
     rs = np.random.default_rng(case['seed'] + 1)
 
@@ -165,8 +202,11 @@ def _worker(case):
     res['fd'] = fd
     if dist == 'normal' and link == 'identity' and tau is None and not gam.terms.hasconstraint:
         Wm = wv * keep
-        beta_ls = np.linalg.solve(B.T @ (Wm[:, None] * B) + A, B.T @ (Wm * y))
-        res['closed_form_pred'] = B @ beta_ls
+        try:
+            beta_ls = np.linalg.solve(B.T @ (Wm[:, None] * B) + A, B.T @ (Wm * y))
+            res['closed_form_pred'] = B @ beta_ls
+        except np.linalg.LinAlgError:
+            pass        # normal matrix singular to working precision: no closed form to compare with (cond counter says so)
     return res
 
 
@@ -251,12 +291,25 @@ def run(ctx):
         # ---- model step
         ctx.case(st, sig, nontrivial=nontriv, sample=small)
         if out == 'bad-op':
-            ctx.disagree(st, sig, 'n/a', 'bad-op', 'model could not evaluate the step (singular normal matrix or malformed op)')
+            if judged_ii:
+                ctx.disagree(st, sig, 'n/a', 'bad-op', 'model could not evaluate the step (singular normal matrix or malformed op)')
+            else:
+                # 10 eps cond(N) > 1e-3: the normal matrix is singular to working precision, Gaussian elimination in the
+                # Float model finds no pivot; nothing is judged on such a problem (see conditioning counter)
+                ctx.count('model step', 'not evaluated: normal matrix singular to working precision (not judged)')
             continue
         vals = [common.bits2f(t) for t in out.split()]
         rel_res, rel_lp, beta1 = vals[0], vals[1], np.array(vals[2:])
+        # the model reports both relative to |rhs| / |eta|; re-express them on the cancellation-free scales used for
+        # the oracle (|B|'W^2|z| and max(|eta|, |z|)), from the model's own step beta1
+        rel_res = rel_res * r['rhs_norm'] / (r['rhs_abs_norm'] + 1e-300)
+        rel_lp = float(np.linalg.norm(r['B'] @ (beta1 - r['coef'])) / r['lp_scale'])
         bad_step = None
-        if judged_ii and not (rel_res <= thr * 10):
+        if r.get('zero_solution'):
+            # coef_ is rounding noise around the exact optimum 0 (no information in the kept rows): relative residuals of
+            # the model step at coef_ are noise / noise; the oracle above judged the claim beta = 0
+            ctx.count('zero solution (judged as the claim beta = 0)', 'n')
+        elif judged_ii and not (rel_res <= thr * 10):
             bad_step = 'model score residual %.3g (relative to the right-hand side) > %.3g' % (rel_res, thr * 10)
         elif judged_ii and not (rel_lp <= thr):
             bad_step = 'linear predictor moves by %.3g (relative) under one model step > %.3g' % (rel_lp, thr)
